@@ -55,6 +55,39 @@ def strip_comments(src):
     return "".join(out)
 
 
+# Every generated Lean module → (translator, its outputs).  `prove` / `oracle_build` regenerate, from the tree under
+# test, EVERY Gen module in the import closure of what they build that this run has not regenerated yet — so a property
+# module that (transitively) imports another property's generated facts is never checked against a stale file left by an
+# earlier run (possibly of a different tree).  Gen/LockFacts.lean is written by C10's own pipeline (oracle_c10 lockfacts).
+_G = "lean/KafkaVerif/Gen/"
+GEN_EXTRACTORS = {
+    "Accesses": ("accesses", [_G + "Accesses.lean", _G + "Skeletons.lean", ".build/c10/accesses.json"]),
+    "Skeletons": ("accesses", [_G + "Accesses.lean", _G + "Skeletons.lean", ".build/c10/accesses.json"]),
+    "BalancerConsts": ("balancer", [_G + "BalancerConsts.lean"]),
+    "CloseFacts": ("closeproto", [_G + "CloseFacts.lean"]),
+    "CodecClose": ("closeorder", [_G + "CodecClose.lean"]),
+    "CodecPools": ("poolkeys", [_G + "CodecPools.lean"]),
+    "ConnLegacy": ("connlegacy", [_G + "ConnLegacy.lean"]),
+    "DecoderCfg": ("decodercfg", [_G + "DecoderCfg.lean"]),
+    "DecoderFacts": ("decoder", [_G + "DecoderFacts.lean"]),
+    "GroupBalancerSel": ("groupbalancer", [_G + "GroupBalancerSel.lean"]),
+    "GroupFacts": ("group", [_G + "GroupFacts.lean"]),
+    "Legacy": ("legacy", [_G + "Legacy.lean", _G + "LegacyGolden.lean"]),
+    "LegacyGolden": ("legacy", [_G + "Legacy.lean", _G + "LegacyGolden.lean"]),
+    "Mappings": ("mappings", [_G + "Mappings.lean"]),
+    "MuxFacts": ("muxfacts", [_G + "MuxFacts.lean"]),
+    "Offsets": ("offsets", [_G + "Offsets.lean"]),
+    "RecordCfg": ("recordcfg", [_G + "RecordCfg.lean"]),
+    "RecordConsts": ("records", [_G + "RecordConsts.lean"]),
+    "RecordLayout": ("recordlayout", [_G + "RecordLayout.lean"]),
+    "Routing": ("routing", [_G + "Routing.lean"]),
+    "SaslPlainFmt": ("saslplain", [_G + "SaslPlainFmt.lean"]),
+    "Schemas": ("schemas", [_G + "Schemas.lean", "go/internal/msgs/msgs_gen.go"]),
+    "WriterConsts": ("writer", [_G + "WriterConsts.lean"]),
+    "XerialReset": ("resetfields", [_G + "XerialReset.lean"]),
+}
+
+
 class Ctx:
     def __init__(self, prop, tier, seed, replay=None):
         self.prop, self.tier, self.seed, self.replay = prop, tier, seed, replay
@@ -105,7 +138,44 @@ class Ctx:
             rc, so, se = sh(["go", "run", "./extract/" + what, what, os.path.realpath(REPO), ROOT], cwd=GO, env=GOENV, timeout=600)
         if rc != 0:
             self.log("extract %s failed:\n%s%s" % (what, so, se))
+        if not hasattr(self, "_extracted"): self._extracted = {}
+        self._extracted[what] = (rc == 0)
         return rc == 0, so + se
+
+    def gen_imports(self, module):
+        """names of the Gen modules in the import closure of `module` (whether or not the files exist right now)"""
+        seen, todo, gens = set(), [module], set()
+        while todo:
+            m = todo.pop()
+            if m in seen: continue
+            seen.add(m)
+            if m.startswith("KafkaVerif.Gen."):
+                gens.add(m.split(".")[-1])
+            rp = os.path.join(LEAN, m.replace(".", "/") + ".lean")
+            if not os.path.exists(rp): continue
+            for imp in re.findall(r"^import\s+(\S+)", open(rp).read(), re.M):
+                if imp.startswith("KafkaVerif.") or imp.startswith("Oracle."):
+                    todo.append(imp)
+        return gens
+
+    def ensure_generated(self, module):
+        """regenerate from the tree under test every Gen module `module` imports and this run has not regenerated;
+        returns [(translator, log)] for the translators that failed (now or earlier in this run)"""
+        done = getattr(self, "_extracted", {})
+        bad = []
+        for g in sorted(self.gen_imports(module)):
+            ent = GEN_EXTRACTORS.get(g)
+            if ent is None: continue
+            what, outs = ent
+            if what not in done:
+                ok, log = self.extract(what, outs)
+                done = self._extracted
+                if not ok: bad.append((what, log[-800:]))
+            elif not done[what] and what not in [b[0] for b in bad]:
+                bad.append((what, "translator failed earlier in this run"))
+        self.coverage.setdefault("regenerated", sorted(k for k, v in getattr(self, "_extracted", {}).items() if v))
+        self.coverage["regenerated"] = sorted(k for k, v in getattr(self, "_extracted", {}).items() if v)
+        return bad
 
     # ---------------------------------------------------------------- Lean
     def lean_build(self, targets, timeout=1500):
@@ -169,9 +239,13 @@ class Ctx:
         """Build `module` (Props/Cxx), audit it.  Returns dict with obligations/discharged/failed."""
         relp = module.replace(".", "/") + ".lean"
         thms = self.theorems_of(relp)
+        gen_bad = self.ensure_generated(module)
         closure = self.lean_closure(module)
         ok, log = self.lean_build([module])
         failed, reasons = [], []
+        if gen_bad:
+            failed = [n for n, _ in thms]
+            reasons = ["translator %s failed on the tree under test (its Gen module is imported by %s): %s" % (w, module, l) for w, l in gen_bad]
         if not ok:
             errs = re.findall(r"error: (\S+?\.lean):(\d+):(\d+): (.*)", log)
             own = [(int(l), msg) for (f, l, c, msg) in errs if f.endswith(relp)]
@@ -250,6 +324,11 @@ class Ctx:
         return out, ""
 
     def oracle_build(self, exe):
+        m = re.search(r'name = "%s"\s*\nroot = "([\w.]+)"' % re.escape(exe), open(os.path.join(LEAN, "lakefile.toml")).read())
+        if m:
+            bad = self.ensure_generated(m.group(1))
+            if bad:
+                return None, "\n".join("translator %s failed: %s" % b for b in bad)
         ok, log = self.lean_build([exe])
         path = os.path.join(LEAN, ".lake", "build", "bin", exe)
         return (path if ok and os.path.exists(path) else None), log
